@@ -7,12 +7,13 @@ use crate::pipe::{self, Outcome, Shell, SHELLS};
 use crate::report::{Report, Samples, Tier};
 use std::collections::BTreeSet;
 
-const SEPS: [&str; 9] = [" ", "  ", "\n", "\t", "\u{c}", " # c\n", " #\n", " # a\rb\n", "\r\n"];
+const SEPS: [&str; 10] = ["", " ", "  ", "\n", "\t", "\u{c}", " # c\n", " #\n", " # a\rb\n", "\r\n"];
 
 fn allowed(sep: &str, glue: Glue) -> bool {
     match glue {
         Glue::Tight => false,
-        _ => !sep.is_empty(),
+        Glue::Req => !sep.is_empty(),
+        Glue::Opt0 | Glue::Opt1 | Glue::Stmt => true,
     }
 }
 
@@ -50,11 +51,14 @@ struct Layout {
     /// (statement index, node id)
     parens: Option<(usize, usize)>,
     all_parens: bool,
+    /// parenthesise only the literal of a described literal: `(lit) "d"`
+    inner: bool,
 }
 
 fn tokens(g: &G, lay: &Layout) -> Vec<Tok> {
     let mut p = Printer::new(DotStyle::Escaped);
     for (i, s) in g.stmts.iter().enumerate() {
+        p.parens_inside_description = lay.inner;
         p.extra_parens = match lay.parens {
             Some((si, id)) if si == i => Some(id),
             _ => None,
@@ -105,7 +109,7 @@ fn permutations(n: usize) -> Vec<Vec<usize>> {
 
 fn check_grammar(acc: &mut Acc, g: &G, shells: &[Shell], pairs: bool) {
     acc.grammars += 1;
-    let base_lay = Layout { assign: vec!["="; g.stmts.len()], last_semicolon: true, parens: None, all_parens: false };
+    let base_lay = Layout { assign: vec!["="; g.stmts.len()], last_semicolon: true, parens: None, all_parens: false, inner: false };
     let base_toks = tokens(g, &base_lay);
     let base_text = render_canonical(&base_toks);
     let mut base: Vec<Option<(Vec<u8>, [usize; 3])>> = vec![];
@@ -240,6 +244,14 @@ fn check_grammar(acc: &mut Acc, g: &G, shells: &[Shell], pairs: bool) {
             lay.parens = Some((si, id));
             rot += 1;
             variant(acc, "redundant-parentheses", render_canonical(&tokens(g, &lay)), rot);
+            // ... and between a literal and its own description
+            lay.inner = true;
+            let t2 = render_canonical(&tokens(g, &lay));
+            lay.inner = false;
+            if t2 != render_canonical(&tokens(g, &lay)) {
+                rot += 1;
+                variant(acc, "parentheses-before-description", t2, rot);
+            }
         }
     }
     // every permutation of the definitions (call variants keep their places)
@@ -351,7 +363,7 @@ pub fn run(tier: Tier) -> Report {
         let Ok(pg) = complgen::parse::Grammar::parse(text) else { continue };
         let g = from_grammar(&pg);
         let canon = print_grammar(&g);
-        let lay = Layout { assign: vec!["::="; g.stmts.len()], last_semicolon: false, parens: None, all_parens: false };
+        let lay = Layout { assign: vec!["::="; g.stmts.len()], last_semicolon: false, parens: None, all_parens: false, inner: false };
         let relaid = render_with(&tokens(&g, &lay), |i, glue| if i > 0 && !matches!(glue, Glue::Tight) && i % 3 == 0 { Some(" # x\n\t".to_string()) } else { None });
         let mut rev = g.clone();
         let def_pos: Vec<usize> = rev.stmts.iter().enumerate().filter(|(_, s)| matches!(s, Stmt::Def { .. })).map(|(i, _)| i).collect();
@@ -389,7 +401,7 @@ pub fn run(tier: Tier) -> Report {
     rep.cov(
         "rule",
         J::s(format!(
-            "metamorphic, exhaustive single deviations: for every accepted grammar of (all trees <= {k} nodes over V0; the small definition family; all definition DAGs on 2..4 definitions; alternatives/sequences/fallbacks of bare references to command, word and literal definitions; the corpus) the canonical print is compiled for all four shells, then EVERY single re-layout is compiled (target shell rotating over the four) and compared byte for byte with the canonical output, plus verdict and warning counts: each alternative separator from {SEPS:?} at each token gap, leading/trailing blanks and comments, `::=` per definition and for all, no final `;`, redundant parentheses around every node outside a word (one at a time), every permutation of the definitions (all n! for n <= 4), definitions first / last; all pairs of separator deviations for trees <= {k_pairs} nodes. Level B: every corpus text (incl. examples/*.usage) through the real binary: original layout vs the harness's canonical re-print vs a comments+`::=`+no-final-`;` re-layout vs reversed definitions, x 4 shells, stdout and exit status identical. distinct = distinct variant texts."
+            "metamorphic, exhaustive single deviations: for every accepted grammar of (all trees <= {k} nodes over V0; the small definition family; all definition DAGs on 2..4 definitions; alternatives/sequences/fallbacks of bare references to command, word and literal definitions; the corpus) the canonical print is compiled for all four shells, then EVERY single re-layout is compiled (target shell rotating over the four) and compared byte for byte with the canonical output, plus verdict and warning counts: each alternative separator from {SEPS:?} at each token gap, leading/trailing blanks and comments, `::=` per definition and for all, no final `;`, redundant parentheses around every node outside a word (one at a time) and around the literal of a described literal `(lit) \"d\"`, every permutation of the definitions (all n! for n <= 4), definitions first / last; all pairs of separator deviations for trees <= {k_pairs} nodes. Level B: every corpus text (incl. examples/*.usage) through the real binary: original layout vs the harness's canonical re-print vs a comments+`::=`+no-final-`;` re-layout vs reversed definitions, x 4 shells, stdout and exit status identical. distinct = distinct variant texts."
         )),
     );
     rep.cov("exhaustive", J::Bool(true));
